@@ -36,6 +36,9 @@ type C20Queue struct {
 	ConsumersFirst bool    `json:"consumers_first"`
 	// DrainBeforeClose: the closer waits until every accepted item has been delivered
 	DrainBeforeClose bool `json:"drain_before_close"`
+	// Quota: per consumer, the number of items after which it stops pulling (0: pulls until closed).
+	// The generator keeps the sum of the quotas >= the number of pushes, so the queue can always drain.
+	Quota []int `json:"quota,omitempty"`
 }
 
 func yield(code int) {
@@ -85,9 +88,13 @@ func c20CheckQueue(c C20Queue) *pbt.Violation {
 	startConsumers := func() {
 		for ci, ys := range c.Consumers {
 			consWG.Add(1)
+			quota := 0
+			if ci < len(c.Quota) {
+				quota = c.Quota[ci]
+			}
 			go func(ci int, ys []int) {
 				defer consWG.Done()
-				for i := 0; ; i++ {
+				for i := 0; quota == 0 || i < quota; i++ {
 					if len(ys) > 0 {
 						yield(ys[i%len(ys)])
 					}
@@ -285,6 +292,17 @@ var c20Queue = pbt.Register(pbt.Prop[C20Queue]{
 		c.CloseYield = rapid.IntRange(0, 5).Draw(t, "closeyield")
 		c.ConsumersFirst = rapid.Bool().Draw(t, "consumersfirst")
 		c.DrainBeforeClose = rapid.Bool().Draw(t, "drainfirst")
+		if rapid.Bool().Draw(t, "quotas") {
+			// consumers that take a bounded number of items and leave: the others must be woken for the rest
+			items := 0
+			for _, p := range c.Producers {
+				items += len(p)
+			}
+			per := items/len(c.Consumers) + 1
+			for range c.Consumers {
+				c.Quota = append(c.Quota, per+rapid.IntRange(0, 2).Draw(t, "quotaextra"))
+			}
+		}
 		return c
 	},
 	Check: c20CheckQueue,
